@@ -147,24 +147,26 @@ def _inputs():
                        ("null_model_und_sign", (Fu8, 2, 0.5), (Fu9, 1, 1.0)),
                        ("null_model_dir_sign", (Fd8, 2, 0.5), (Fd9, 1, 1.0))]:
         add(nm, ref, a1, a2, group="rewiring")
+    Dist9 = np.abs(np.arange(9)[:, None] - np.arange(9)[None, :]).astype(float) * 1.5 + 1    # explicit D
     for nm, a1, a2 in [("latmio_und", (U10, 2), (Uw9, 2)), ("latmio_dir", (D8, 2), (Dw9, 2)),
                        ("latmio_und_connected", (U10, 2), (Uw9, 2)),
                        ("latmio_dir_connected", (D8, 2), (Dw9, 2))]:
-        add(nm, ref, a1, a2, group="latticiser")
+        add(nm, ref, a1, a2, {}, dict(D=Dist9), group="latticiser")
     for nm, a1, a2 in [("makeevenCIJ", (16, 50, 2), (16, 44, 4)), ("makefractalCIJ", (3, 2.5, 1), (3, 2.0, 2)),
                        ("makerandCIJdegreesfixed", ([2, 1, 2, 1, 2, 2], [1, 2, 2, 2, 1, 2]),
                         ([1, 2, 3, 2, 1, 2, 1], [2, 2, 1, 2, 2, 1, 2])),
                        ("makerandCIJ_dir", (6, 10), (8, 20)), ("makerandCIJ_und", (6, 7), (8, 12)),
                        ("makeringlatticeCIJ", (8, 20), (7, 17)), ("maketoeplitzCIJ", (8, 16, 1.5), (7, 15, 2.0))]:
         add(nm, ref, a1, a2, group="generator")
-    add("community_louvain", mod, (Uw10,), (Fu8,), {}, dict(B="negative_asym"), group="modularity")
-    add("modularity_louvain_und", mod, (Uw10,), (U9,), {}, dict(gamma=0.8), group="modularity")
-    add("modularity_louvain_dir", mod, (R8,), (D9,), {}, dict(gamma=0.8), group="modularity")
+    ci8, ci9 = np.array([1, 1, 2, 2, 3, 3, 1, 2]), np.array([1, 2, 3, 1, 2, 3, 1, 2, 3])
+    add("community_louvain", mod, (Uw10,), (Fu8,), {}, dict(B="negative_asym", ci=ci8), group="modularity")
+    add("modularity_louvain_und", mod, (Uw10,), (U9,), {}, dict(gamma=0.8, hierarchy=True), group="modularity")
+    add("modularity_louvain_dir", mod, (R8,), (D9,), {}, dict(gamma=0.8, hierarchy=True), group="modularity")
     add("modularity_louvain_und_sign", mod, (Fu8,), (C92,), {}, dict(qtype="gja"), group="modularity")
-    add("modularity_finetune_und", mod, (Uw10,), (U9,), group="modularity")
-    add("modularity_finetune_dir", mod, (Dw8,), (D9,), group="modularity")
-    add("modularity_finetune_und_sign", mod, (Fu8,), (Su9,), {}, dict(qtype="neg"), group="modularity")
-    add("modularity_probtune_und_sign", mod, (Fu8,), (Su9,), {}, dict(p=0.6), group="modularity")
+    add("modularity_finetune_und", mod, (Uw10,), (U9,), {}, dict(ci=ci9), group="modularity")
+    add("modularity_finetune_dir", mod, (Dw8,), (D9,), {}, dict(ci=ci9, gamma=1.2), group="modularity")
+    add("modularity_finetune_und_sign", mod, (Fu8,), (Su9,), {}, dict(qtype="neg", ci=ci9), group="modularity")
+    add("modularity_probtune_und_sign", mod, (Fu8,), (Su9,), {}, dict(p=0.6, ci=ci9), group="modularity")
     add("core_periphery_dir", cor, (R8,), (C8,), group="other")
     add("consensus_und", clu, (P10, 0.3, 3), (P9, 0.4, 2), group="other", slow=True)
     add("rentian_scaling", phy, (U12, xyz12, 4), (U11, xyz11, 3), group="other")
